@@ -815,8 +815,8 @@ CLAIMS["C03"]["text"] += (
 CLAIMS["C03"]["note"] += (
     " Round 11 — proved: the three theorems above (axioms propext, Classical.choice, Quot.sound). Four places where Wt alone was "
     "too weak became decidable conjuncts of the fragment (enum field read without the variant fact; struct N vs enum N; dispatch "
-    "row vs implementing function; wildcard-compatible vs exact callee instance). Not proved (closures / function values were added in the second pass, trait calls on receivers of parametric type in the third): Ref / Vec / "
-    "arrays (store typing), trait objects, go, trait calls on receivers of parametric type inside the fragment, progress. Validated "
+    "row vs implementing function; wildcard-compatible vs exact callee instance). Not proved (closures / function values were added in the second pass, trait calls on receivers of parametric type in the third, arrays / Vec in the fourth): Ref (store typing: side file Lemmas/ValTyStore.lean, not connected), "
+    "trait objects, go, impls for instances of generic types, progress. Validated "
     "only: the static-dispatch oracle on programs outside the fragment. In real Core dumps the typer has already resolved every "
     "trait-method call on a concrete receiver to a direct call; every ETraitCall left has a receiver of parametric type.")
 CLAIMS["C03"]["text"] += (
@@ -832,6 +832,12 @@ CLAIMS["C03"]["text"] += (
     "Self; no nominal type named like a scalar key); Lemmas/ValTyKey.lean proves key_determines (the dispatch key of a well-typed "
     "value determines its type among the keyable types), so traitcall_static_dispatch now applies to real programs with trait "
     "calls. Real Core dumps inside the hypothesis: 216 -> 225 of the same 683 programs, 360 of 818 with the new pattern-position stream (8 with an ETraitCall).")
+CLAIMS["C03"]["text"] += (
+    " Fourth pass: arrays and vectors are typed values (VT.array, VT.vec); array literals and array_get / array_set / vec_new / "
+    "vec_push / vec_get / vec_len (judged on the shape of the argument and result types of the call, ValTy.polyOk) are inside the "
+    "fragment. Lemmas/ValTyStore.lean holds the store-typing development for Ref (typing monotone under append-only extension of "
+    "the store typing, world invariant, allocation, read, no dangling reference) — proved, NOT yet connected to "
+    "sem_preserves_types_partial: programs using Ref are still outside the fragment.")
 CLAIMS["C07"]["note"] += (
     " Round 11: traitcall_static_dispatch (Props/C03.lean) proves, on the fragment of sem_preserves_types_partial, the typing "
     "invariant traitcall_commutes assumes (runtime key = key of the instantiated static type); ./check C07 also runs the "
